@@ -5,9 +5,11 @@ patch=$1; shift
 cd /repo || exit 2
 if ! git diff --quiet; then echo "/repo has uncommitted changes; refusing"; exit 2; fi
 git apply "$patch" || { echo "patch does not apply"; exit 2; }
+export VERIF_EVIDENCE_DIR=$(mktemp -d)     # keep /verif/evidence describing the unchanged tree
 for id in "$@"; do
   /verif/check "$id" 2>&1 | grep -v "^  File\|^Traceback" | head -${LINES_MAX:-12}
   echo "exit($id)=${PIPESTATUS[0]}"
 done
 git checkout -- .
+rm -rf "$VERIF_EVIDENCE_DIR"
 git -C /repo status --short | head -3
